@@ -24,6 +24,7 @@ type VerifC35SendParams struct {
 	Writers    []VerifC35Writer
 	Credit     uint32 // bytes of window the model grants later without having received data (initial window may be 0)
 	AdjustUnit uint32 // 0: each adjust returns everything consumed so far; n>0: at most n bytes per adjust
+	NoReturn   bool   // the receiver never returns window for data it consumed (only Credit is granted): a receiver whose window is still above its adjust threshold
 }
 
 // VerifC35SendResult is the observation of one execution.
@@ -158,7 +159,9 @@ func VerifC35Send(p VerifC35SendParams) *VerifC35SendResult {
 				res.Received[ext]++
 			}
 			got += len(data)
-			consumed += uint32(len(data))
+			if !p.NoReturn {
+				consumed += uint32(len(data))
+			}
 			cond.Broadcast()
 			mu.Unlock()
 		}
